@@ -9,6 +9,10 @@
    each whole and in order - for every log, every cut point, no bound.
    [c13_restore_prefix]: for every prefix of state ++ log, Restore fails or yields the complete
    state plus a prefix of the logged commits.
+   [c13_real_commit_log_prefix]: the same for the commit frame exactly as commit/commit.go lays it
+   out (WireCommit.v: uvarint chunk and id, counted updates, each with its column name, counted
+   little-endian shard headers and payload); this encoder is diffed byte for byte against the real
+   Commit.WriteTo, and its decoder's verdict on prefixes against the real Commit.ReadFrom (engine wire).
    Parsers are structurally recursive on the byte list (or on fuel = its length, every frame
    consuming at least one byte), so "never hangs" holds of the model by construction.
    NOT modelled (trusted, DESIGN.md section 7): the s2 framing around both streams.  Assumed of
@@ -16,7 +20,7 @@
    the panic / hang freedom of the real readers are checked by the trunc engine: every prefix
    (every byte in the thorough tier) of real snapshot and log files is restored. *)
 From Coq Require Import NArith List.
-From ColumnV Require Import Wire.
+From ColumnV Require Import Wire WireCommit.
 Import ListNotations.
 Local Open Scope N_scope.
 
@@ -53,3 +57,13 @@ Example c13_example :
   range_log frame_dec 20 (firstn 7 (log_bytes frame_enc fs)) = [(0, (7, [1;2;3]))] /\
   range_log frame_dec 20 (log_bytes frame_enc fs) = fs.
 Proof. vm_compute. auto. Qed.
+
+Theorem c13_real_commit_safe : safe commit_enc commit_dec commit_ok.
+Proof. exact commit_safe. Qed.
+Print Assumptions c13_real_commit_safe.
+
+Theorem c13_real_commit_log_prefix : forall (cs : list commit) p,
+  Forall commit_ok cs -> prefix_of p (log_bytes commit_enc cs) ->
+  exists k, range_log commit_dec (length p) p = firstn k cs.
+Proof. exact real_commit_log_prefix. Qed.
+Print Assumptions c13_real_commit_log_prefix.
